@@ -46,6 +46,11 @@ ERRORS = [
     ("bad-suffix", "lda.q #1", 4), ("bad-suffix-eol", "lda.", 4), ("bad-index", "lda 0x10,z", 9), ("bad-index-spaced", "lda 0x10 ,  q", 12),
     ("unterminated-string", ".ascii 'abc", 7), ("invalid-char", "lda #1 ?", 7), ("invalid-char-start", "$", 0),
     ("unknown-keyword", ".bogus 1", 1), ("unterminated-comment", "/* never closed", 0),
+    # the same expression text appears earlier in a correct statement (where the name is visible): the report must
+    # point at THIS statement, not at the earlier one (4th field: lines placed before the statement)
+    ("undef-same-text-db", ".db zz_in + 1", None, "{\nzz_in = 5\n.db zz_in + 1\n}"),
+    ("undef-same-text-op", "lda.w zz_in2", None, ".scope zz_sc {\nzz_in2:\nlda.w zz_in2\n}"),
+    ("undef-same-text-reloc", "@=zz_in3", None, "{\nzz_in3 := 0x7e0000\n@=zz_in3\nnop\n}"),
 ]
 NOISE = ["", "", "; a comment", "   ; indented comment", "/* one line */", "/* two\n   lines */", "{\n    nop\n}",
          ".macro zz_noise(a) {\n    .db a\n}", "\n\n", "zz_noise_label:", "nop ; trailing",
@@ -59,7 +64,7 @@ def cases(ctx):
     out = []
     reps = 8 if tier == "quick" else 120
     for rep in range(reps):
-        for kind, stmt, col in ERRORS:
+        for kind, stmt, col, *pre in ERRORS:
             for where in ("main", "include"):
                 rom = rng.choice(["low", "high"])
                 g = progen.Gen(rng, rom=rom, features={"blocks", "scopes", "macros", "if", "for", "data", "ascii", "symbols"})
@@ -75,7 +80,7 @@ def cases(ctx):
                         spots.append(i)
                     depth += ln.count("{") - ln.count("}")
                 pos = rng.choice(spots)
-                noise = "\n".join(rng.choice(NOISE) for _ in range(rng.randrange(0, 4)))
+                noise = "\n".join(pre + [rng.choice(NOISE) for _ in range(rng.randrange(0, 4))])
                 indent = rng.choice(["", "", "  ", "    ", "\t"])
                 tail = rng.choice(["", "", "nop", "; after"])
                 if kind in ("unterminated-comment",) and tail:
